@@ -159,6 +159,18 @@ def runUdp (ws : List String) : String :=
       let w := pollAll u.w
       let snaps := ((w.socks.map (·.events.length)) :: u.snaps).reverse
       s!"st=[{",".intercalate u.sts.reverse}] {" ".intercalate (showGroups w snaps)}"
+  | ["mcast"] =>
+    -- two listeners; the group address and the unicast address of socket 0 are one socket in the model: a
+    -- probe 1 -> 0, the reply 0 -> 1 through the reported endpoint, then eight sizes 1 -> 0
+    let sizes := [0, 1, 2, 100, 1472, 1473, 9000, 65507]
+    let ops := ["L", "L", "f1>0:5:1", "w", "r0>1:5:2", "w"] ++ (sizes.zipIdx.map fun (n, k) => s!"f1>0:{n}:{50 + k}") ++ ["w"]
+    match udpRun ops with
+    | none => "model: ops rejected"
+    | some u =>
+      let w := pollAll u.w
+      let at0 := (w.socks[0]?.map (·.events.length)).getD 0
+      let at1 := (w.socks[1]?.map (·.events.length)).getD 0
+      s!"probe={min at0 1} reply={at1} unicast={at0 - 1}/{sizes.length}"
   | ["fl", k] =>
     match k.splitOn "-" with
     | [t, side] =>
